@@ -16,25 +16,25 @@ GROUPS = [
  _g("sdo_abortreq", "COSdoAbortReq", "COSdoAbortReq(%s)" % SRVP, []),
  _g("sdo_getobject", "COSdoGetObject", "CO_ERR e = COSdoGetObject(%s, H_A16)" % SRVP, ["COSdoAbort"],
     R("a", "e == CO_ERR_NONE") + R("b", "e != CO_ERR_NONE && V_FRM.Data[4] == 0x11"), timeout=600, cost=40, extra_defs=["VW_DICT_SMALL=3"]),
- _g("sdo_dl_exp", "COSdoDownloadExpedited", "CO_ERR e = COSdoDownloadExpedited(%s)" % SRVP, ["COObjWrValue", "COSdoGetSize", "COSdoAbort"],
+ _g("sdo_dl_exp", "COSdoDownloadExpedited", "CO_ERR e = COSdoDownloadExpedited(%s)" % SRVP, ["COObjWrValue", "COObjReset", "COSdoGetSize", "COSdoAbort"],
     R("a", "e == CO_ERR_NONE") + R("b", "e != CO_ERR_NONE && V_FRM.Data[4] == 0x30")),
- _g("sdo_ul_exp", "COSdoUploadExpedited", "CO_ERR e = COSdoUploadExpedited(%s)" % SRVP, ["COObjRdValue", "COSdoGetSize", "COSdoAbort", "COSdoInitUploadSegmented"],
+ _g("sdo_ul_exp", "COSdoUploadExpedited", "CO_ERR e = COSdoUploadExpedited(%s)" % SRVP, ["COObjRdValue", "COObjReset", "COSdoGetSize", "COSdoAbort", "COSdoInitUploadSegmented"],
     R("a", "e == CO_ERR_NONE && V_FRM.Data[0] == 0x4B") + R("b", "e == CO_ERR_NONE && V_FRM.Data[0] == 0x41")),
  _g("sdo_ul_seg_init", "COSdoInitUploadSegmented", "CO_ERR e = COSdoInitUploadSegmented(%s, H_A32)" % SRVP, ["COObjRdBufStart", "COSdoAbort"],
     R("a", "e == CO_ERR_NONE")),
  _g("sdo_ul_seg", "COSdoUploadSegmented", "CO_ERR e = COSdoUploadSegmented(%s)" % SRVP, ["COObjRdBufCont", "COSdoAbort"],
     R("a", "e == CO_ERR_NONE && (V_FRM.Data[0] & 1)") + R("b", "e == CO_ERR_NONE && !(V_FRM.Data[0] & 1)")),
- _g("sdo_dl_seg_init", "COSdoInitDownloadSegmented", "CO_ERR e = COSdoInitDownloadSegmented(%s)" % SRVP, ["COObjWrBufStart", "COSdoGetSize", "COSdoAbort"],
+ _g("sdo_dl_seg_init", "COSdoInitDownloadSegmented", "CO_ERR e = COSdoInitDownloadSegmented(%s)" % SRVP, ["COObjWrBufStart", "COObjReset", "COSdoGetSize", "COSdoAbort"],
     R("a", "e == CO_ERR_NONE")),
  _g("sdo_dl_seg", "COSdoDownloadSegmented", "CO_ERR e = COSdoDownloadSegmented(%s)" % SRVP, ["COObjWrBufCont", "COSdoAbort"],
     R("a", "e == CO_ERR_NONE && V_NODE.Sdo[G_N].Obj == 0") + R("b", "e == CO_ERR_NONE && V_NODE.Sdo[G_N].Obj != 0")),
- _g("sdo_dl_blk_init", "COSdoInitDownloadBlock", "CO_ERR e = COSdoInitDownloadBlock(%s)" % SRVP, ["COObjWrBufStart", "COSdoGetSize", "COSdoAbort"],
+ _g("sdo_dl_blk_init", "COSdoInitDownloadBlock", "CO_ERR e = COSdoInitDownloadBlock(%s)" % SRVP, ["COObjWrBufStart", "COObjReset", "COSdoGetSize", "COSdoAbort"],
     R("a", "e == CO_ERR_NONE")),
  _g("sdo_dl_blk", "COSdoDownloadBlock", "CO_ERR e = COSdoDownloadBlock(%s)" % SRVP, ["COObjWrBufCont", "COSdoAbort"],
     R("a", "e == CO_ERR_NONE && V_NODE.Sdo[G_N].Blk.State == BLK_DNWAIT") + R("b", "e == CO_ERR_SDO_SILENT && V_NODE.Sdo[G_N].Blk.SegCnt == 100") + R("c", "e == CO_ERR_SDO_ABORT")),
  _g("sdo_dl_blk_end", "COSdoEndDownloadBlock", "CO_ERR e = COSdoEndDownloadBlock(%s)" % SRVP, ["COObjWrBufCont", "COSdoAbort"],
     R("a", "e == CO_ERR_NONE")),
- _g("sdo_ul_blk_init", "COSdoInitUploadBlock", "CO_ERR e = COSdoInitUploadBlock(%s)" % SRVP, ["COObjRdBufStart", "COSdoGetSize", "COSdoAbort", "COSdoAbortReq"],
+ _g("sdo_ul_blk_init", "COSdoInitUploadBlock", "CO_ERR e = COSdoInitUploadBlock(%s)" % SRVP, ["COObjRdBufStart", "COObjReset", "COSdoGetSize", "COSdoAbort", "COSdoAbortReq"],
     R("a", "e == CO_ERR_NONE") + R("b", "e != CO_ERR_NONE && V_FRM.Data[4] == 0x02"), extra_defs=["VW_DICT_SMALL=3"]),
  dict(name="sdo_ul_blk", fn="COSdoUploadBlock", form="explicit", harness="sdo_ul_blk.c", tus=["service/cia301/co_ssdo.c", "core/co_dict.c"],
       nondet_static=True, contracts=["sdo.h"], loops={"COSdoUploadBlock.0": "VWL_ulb_move", "COSdoUploadBlock.6": "VWL_ulb_main"},
